@@ -184,6 +184,7 @@ static void sec_conv(Ctx& c, uint64_t idx) {
         // narrow keys for regimes that are reported separately (normal zone)
         else if (exact && xi && E.ba > 4 && err <= 32 * E.ba * E.ba) key = "oracle:C15/auxlat/exact/xi/prolate-b/a>4";
         else if (exact && xi && E.f < 0 && E.f > -1e-6 && tphi > 1e150Q) key = "oracle:C15/auxlat/exact/xi/prolate-|f|<1e-6-tanphi>1e150";
+        else if (exact && xi && E.f > 0 && E.f < 1e-6 && tphi > 1e150Q) key = "oracle:C15/auxlat/exact/xi/oblate-f<1e-6-tanphi>1e150";
         else if (exact && !E.axes && E.ba < 0.25 && (from >= 3 || to >= 3) && err <= 2 / (E.ba * E.ba)) key = "oracle:C15/auxlat/exact/af-ctor/oblate-b/a<0.25";
         c.viol(key + zone, cls, w);
       }
@@ -210,6 +211,7 @@ static void sec_conv(Ctx& c, uint64_t idx) {
           if (std::isnan(back.y()) || std::isnan(back.x())) key = std::string("law:C15/auxlat/roundtrip/") + mn + "/nan-output";
           else if (exact && (to == ref::AUX_XI || from == ref::AUX_XI) && E.ba > 4 && e2 <= 64 * E.ba * E.ba) key = "oracle:C15/auxlat/exact/xi/prolate-b/a>4";
           else if (exact && (to == ref::AUX_XI || from == ref::AUX_XI) && E.f < 0 && E.f > -1e-6 && tphi > 1e150Q) key = "oracle:C15/auxlat/exact/xi/prolate-|f|<1e-6-tanphi>1e150";
+          else if (exact && (to == ref::AUX_XI || from == ref::AUX_XI) && E.f > 0 && E.f < 1e-6 && tphi > 1e150Q) key = "oracle:C15/auxlat/exact/xi/oblate-f<1e-6-tanphi>1e150";
           else if (exact && !E.axes && E.ba < 0.25 && e2 <= 4 / (E.ba * E.ba)) key = "law:C15/auxlat/roundtrip/exact/af-ctor/oblate-b/a<0.25";
           c.viol(key, cls, J(w).f("back_y", back.y()).f("back_x", back.x()).f("roundtrip_err_eps", e2));
         }
@@ -232,6 +234,8 @@ static void sec_conv(Ctx& c, uint64_t idx) {
         if (!(e3 <= K) && err <= K) c.viol(std::string("oracle:C15/auxlat/FromAuxiliary/") + AUXN[from], cls, J(w).f("FromAux_y", o3.y()).f("FromAux_x", o3.x()).f("FromAux_err_eps", e3));
         bool subn = Tin < (q128)std::numeric_limits<double>::min();
         c.obs(subn ? "auxlat FromAuxiliary Newton iterations (subnormal tangent)" : "auxlat FromAuxiliary Newton iterations (normal tangent)", niter, w);
+        // unchanged tree: at most 15 iterations for tangents in the normal range; the safeguarded Newton must not degenerate into bisection
+        if (!subn && niter > 40 && niter < 1000) c.viol(std::string("law:C15/auxlat/FromAuxiliary-slow-convergence/") + AUXN[from], cls, J(w).i("niter", niter));
         if (niter >= 1000) { c.event(subn ? "FromAuxiliary Newton cap numit_=1000 reached (subnormal tangent)" : "FromAuxiliary Newton cap numit_=1000 reached (normal tangent)");
           if (!subn) c.viol(std::string("law:C15/auxlat/FromAuxiliary-newton-cap-reached/") + AUXN[from], cls, J(w).i("niter", niter)); }
       }
@@ -337,11 +341,11 @@ static void sec_mono(Ctx& c, uint64_t idx) {
   double d0 = r.uniform(0, 89.9), t0 = r.logu(1e-6, 1e6), lo = r.coin() ? -280 : -3, hi = -lo;
   for (int i = 0; i < N; ++i) {
     double in, out; q128 T;
-    if (kind == 1) { in = d0 + i * 1e-11; out = L.Convert(from, to, in, exact); if (have && !(out > prev_out)) c.viol(std::string("law:C15/auxlat/monotone-degrees/") + mn, cls, J().obj("ell", jell(E)).str("from", AUXN[from]).str("to", AUXN[to]).f("in1", prev_in).f("in2", in).f("out1", prev_out).f("out2", out)); prev_in = in; prev_out = out; have = true; continue; }
+    if (kind == 1) { in = d0 + i * 1e-11; out = L.Convert(from, to, in, exact); if (have && !(out >= prev_out)) c.viol(std::string("law:C15/auxlat/monotone-degrees/") + mn, cls, J().obj("ell", jell(E)).str("from", AUXN[from]).str("to", AUXN[to]).f("in1", prev_in).f("in2", in).f("out1", prev_out).f("out2", out)); prev_in = in; prev_out = out; have = true; continue; }
     in = kind == 0 ? std::pow(10.0, lo + (hi - lo) * i / (N - 1.0)) : t0 * (1 + i * 1e-11);
     AuxAngle o = L.Convert(from, to, AuxAngle(in), exact);
     T = qtan_abs(o.y(), o.x());
-    if (have && !(T > prev_T) && !isnanq(T))
+    if (have && !(T >= prev_T) && !isnanq(T))
       c.viol(std::string("law:C15/auxlat/monotone-tangent/") + mn, cls, J().obj("ell", jell(E)).str("from", AUXN[from]).str("to", AUXN[to]).f("tan_in1", prev_in).f("tan_in2", in).str("tan_out1", ref::qstr(prev_T)).str("tan_out2", ref::qstr(T)));
     if (!isnanq(T)) { prev_T = T; prev_in = in; have = true; }
   }
@@ -489,7 +493,7 @@ static void sec_ell(Ctx& c, uint64_t idx) {
       if (phi == 0 && !(got == 0)) c.viol(std::string("law:C15/") + nm + "/fixed-point-0", cls, w2);
     }
     // round trip through the wrapper pair
-    if (!tiny) {
+    if (!tiny && std::fabs((L.*x.fw)(phi)) <= 90) {
       double fwv = (L.*x.fw)(phi), bk = (L.*x.inv)(fwv);
       // forward value is rounded to a double in degrees: near the pole that costs ulp(90)/|90-|fw|| relative in the tangent
       q128 T1 = R.fwd(x.k, t), Y1 = ref::tan_to_deg(T1);
@@ -616,10 +620,10 @@ static void sec_cross(Ctx& c, uint64_t idx) {
     ge.Inverse(0, 0, 90, 0, s12);
     // GeodesicExact's own documentation: round-off grows with the eccentricity (table in GeodesicExact.hpp); C01/C02 judge it.
     // Here: full strictness for 1/2 <= b/a <= 2, proportional allowance outside
-    double gx = std::max(1.0, std::max(E.ba, 1 / E.ba) / 2);
+    double gx = std::max(1.0, std::max(E.ba, 1 / E.ba));
     c.obs(std::string("cross/GeodesicExact-equator-to-pole rel err [eps] (") + E.regime + ")", (double)(fabsq(s12 - Q) / Q) / EPS, w);
-    rel_check(c, "cross/GeodesicExact-equator-to-pole", cls, s12, Q, 2 * K_MEASURE * gx, w);
-    rel_check(c, "cross/QuarterMeridian-vs-GeodesicExact", cls, L.QuarterMeridian(), (q128)s12, 4 * K_MEASURE * gx, w);
+    rel_check(c, "cross/GeodesicExact-equator-to-pole", cls, s12, Q, 4 * K_MEASURE * gx, w);
+    rel_check(c, "cross/QuarterMeridian-vs-GeodesicExact", cls, L.QuarterMeridian(), (q128)s12, 6 * K_MEASURE * gx, w);
     rh.Inverse(0, 0, 90, 0, s12, azi);
     rel_check(c, "cross/Rhumb(exact)-equator-to-pole", cls, s12, Q, 2 * K_MEASURE, w);
     if (std::fabs(f) <= 0.02) { g.Inverse(0, 0, 90, 0, s12); rel_check(c, "cross/Geodesic(series)-equator-to-pole", cls, s12, Q, 2 * K_MEASURE, w); }
@@ -628,7 +632,7 @@ static void sec_cross(Ctx& c, uint64_t idx) {
     q128 sq, cq; ref::sincosd((q128)std::fabs(phi), sq, cq); q128 t = cq == 0 ? (q128)HUGE_VALQ : sq / cq;
     q128 md = R.a * R.merid(t);
     ge.Inverse(0, 0, phi, 0, s12);
-    rel_check(c, "cross/GeodesicExact-meridional-distance", cls, s12, md, 4 * K_MEASURE * gx, J(w).f("phi", phi), 0);
+    rel_check(c, "cross/GeodesicExact-meridional-distance", cls, s12, md, 4 * K_MEASURE * gx, J(w).f("phi", phi), 5e-9 * E.a / 6378137.0);
     // ---- Geocentric at h = 0 gives the circle radius and height
     Geocentric gc(a, f); double X, Y, Z; gc.Forward(phi, 0, 0, X, Y, Z);
     rel_check(c, "cross/Geocentric-X-vs-CircleRadius", cls, X, R.circle_radius(sq, cq), K_MEASURE, J(w).f("phi", phi));
@@ -723,7 +727,11 @@ static void sec_daux(Ctx& c, uint64_t idx) {
       double got = L.DRectifying(z1, z2); q128 want = dd(0, ref::AUX_MU);
       double e = (double)(fabsq((q128)got - want) / fabsq(want)) / EPS;
       double model = same || d1 * d2 < 0 ? 0 : 4 * (M_PI / 2) / (double)fabsq(Dl);
-      if (e > K_DD && e <= model) { c.count(cls + "/DRectifying", vh::hmix(vh::hmix(85, d1), d2)); c.obs("daux/DRectifying rel err [eps] / (4 (pi/2)/|Delta|)  (cancellation regime)", e / model, J(w).f("got", got).str("want", ref::qstr(want)));
+      if (std::isnan(got) && !same) { c.count(cls + "/DRectifying", vh::hmix(vh::hmix(86, d1), d2)); c.viol("oracle:C15/daux/DParametric/nan-for-ulp-close-tangents", cls, J(w).str("via", "DRectifying").f("got", got).str("want", ref::qstr(want))); }
+      else if (e > K_DD && d1 * d2 < 0 && std::fabs(d1 * (M_PI / 180)) * std::fabs(d2 * (M_PI / 180)) < 2.3e-308) { c.count(cls + "/DRectifying", vh::hmix(vh::hmix(87, d1), d2));
+        // x*y underflows, so the "opposite signs" test x*y < 0 fails and the same-sign formula is applied
+        c.viol("oracle:C15/daux/DRectifying/opposite-sign-product-underflow", cls, J(w).f("got", got).str("want", ref::qstr(want)).f("err_eps", e)); }
+      else if (e > K_DD && e <= model) { c.count(cls + "/DRectifying", vh::hmix(vh::hmix(85, d1), d2)); c.obs("daux/DRectifying rel err [eps] / (4 (pi/2)/|Delta|)  (cancellation regime)", e / model, J(w).f("got", got).str("want", ref::qstr(want)));
         c.viol("oracle:C15/daux/DRectifying/angle-difference-cancellation", cls, J(w).f("got", got).str("want", ref::qstr(want)).f("err_eps", e)); }
       else judge("DRectifying", got, want, K_DD);
     }
@@ -744,7 +752,8 @@ static void sec_daux(Ctx& c, uint64_t idx) {
     J w2; w2.f("x", x).f("y", y);
     auto j2 = [&](const std::string& nm, double got, q128 want, double K) {
       c.count(std::string("daux-static/") + nm + "/" + sc, vh::hmix(vh::hmix(82, x), y) ^ vh::hstr(nm.c_str()));
-      double e = (double)(fabsq((q128)got - want) / fabsq(want)) / EPS;
+      q128 den = fabsq(want); if (x * y < 0 && (nm == "Dp0Dpsi" || nm == "Dh")) { q128 a1 = fabsq((q128)x) < fabsq((q128)y) ? fabsq((q128)x) : fabsq((q128)y); a1 = a1 / hypotq(1, a1) / 2; if (a1 > den) den = a1; }   // numerator cancels for x ~ -y
+      double e = (double)(fabsq((q128)got - want) / den) / EPS;
       c.obs(std::string("daux-static/") + nm + " rel err [eps]", e, J(w2).f("got", got).str("want", ref::qstr(want)));
       if (!(e <= K)) c.viol(std::string("oracle:C15/daux-static/") + nm, std::string("daux-static/") + nm, J(w2).f("got", got).str("want", ref::qstr(want)).f("err_eps", e)); };
     // divided differences of elementary functions in 1200-bit MPFR arithmetic (exact to far below binary128)
@@ -773,18 +782,21 @@ static void sec_daux(Ctx& c, uint64_t idx) {
     double cs[6]; for (double& v : cs) v = r.uniform(-1, 1) * std::pow(0.1, r.uniform(0, 6));
     bool sinp = r.coin(); q128 Delta = A2 - A1; bool unit = r.coin(0.3) || same;
     auto sumq = [&](q128 z) { q128 sacc = 0; for (int k = 0; k < 6; ++k) sacc += (q128)cs[k] * (sinp ? sinq((2 * k + 2) * z) : cosq((2 * k + 2) * z)); return sacc; };
+    // difference of the two sums without cancellation: sin a - sin b = 2 cos((a+b)/2) sin((a-b)/2), cos a - cos b = -2 sin((a+b)/2) sin((a-b)/2)
+    auto diffq = [&](q128 z2, q128 z1) { q128 sacc = 0; for (int k = 0; k < 6; ++k) { q128 m = (k + 1) * (z2 + z1), h = (k + 1) * (z2 - z1);
+      sacc += (q128)cs[k] * (sinp ? 2 * cosq(m) * sinq(h) : -2 * sinq(m) * sinq(h)); } return sacc; };
     AuxAngle n1 = z1.normalized(), n2 = z2.normalized();
     q128 B1 = ang(n1), B2 = ang(n2);
     double dl = unit ? 1.0 : (double)(B2 - B1);
     if (!unit && dl == 0) { unit = true; dl = 1; }
     double got = DAuxLatitude::DClenshaw(sinp, dl, n1.y(), n1.x(), n2.y(), n2.x(), cs, 6);
-    q128 want = (sumq(B2) - sumq(B1)) / (unit ? (q128)1 : (B2 - B1));
+    q128 want = diffq(B2, B1) / (unit ? (q128)1 : (B2 - B1));
     q128 scale = 0; for (int k = 0; k < 6; ++k) scale += fabsq((q128)cs[k]) * (2 * k + 2);
     double e = (double)(fabsq((q128)got - want) / scale) / EPS;
     (void)Delta;
     c.count(std::string("daux/DClenshaw/") + sc + (unit ? "/Delta=1" : "/Delta=angle"), vh::hmix(vh::hmix(83, d1), d2));
     c.obs("daux/DClenshaw abs err / sum|c_k|(2k+2) [eps]", e, J(w).b("sinp", sinp).b("unit", unit).f("got", got).str("want", ref::qstr(want)));
-    if (!(e <= 16)) c.viol("oracle:C15/daux/DClenshaw", cls, J(w).b("sinp", sinp).b("unit", unit).f("got", got).str("want", ref::qstr(want)).f("err_eps", e));
+    if (!(e <= 32)) c.viol("oracle:C15/daux/DClenshaw", cls, J(w).b("sinp", sinp).b("unit", unit).f("got", got).str("want", ref::qstr(want)).f("err_eps", e));
     // plain Clenshaw
     double g1 = AuxLatitude::Clenshaw(sinp, n1.y(), n1.x(), cs, 6); q128 sc1 = scale;
     double e1 = (double)(fabsq((q128)g1 - sumq(B1)) / sc1) / EPS;
@@ -823,14 +835,14 @@ static void sec_selftest(Ctx& c, uint64_t idx) {
 
 int main(int argc, char** argv) {
   std::vector<Section> S;
-  S.push_back({"conv", 30000, 1500000, true, sec_conv});
-  S.push_back({"deg", 20000, 1000000, true, sec_deg});
+  S.push_back({"conv", 30000, 400000, true, sec_conv});
+  S.push_back({"deg", 20000, 200000, true, sec_deg});
   S.push_back({"mono", 720, 7200, true, sec_mono});
-  S.push_back({"auxangle", 20000, 1000000, true, sec_auxangle});
-  S.push_back({"ell", 20000, 1000000, true, sec_ell});
-  S.push_back({"flat", 10000, 500000, true, sec_flat});
-  S.push_back({"cross", 2000, 50000, true, sec_cross});
-  S.push_back({"daux", 20000, 1000000, true, sec_daux});
+  S.push_back({"auxangle", 20000, 200000, true, sec_auxangle});
+  S.push_back({"ell", 15000, 120000, true, sec_ell});
+  S.push_back({"flat", 10000, 200000, true, sec_flat});
+  S.push_back({"cross", 2000, 20000, true, sec_cross});
+  S.push_back({"daux", 15000, 120000, true, sec_daux});
   S.push_back({"selftest", 48, 480, false, sec_selftest});
   return vh::run_sections(argc, argv, S);
 }
